@@ -285,6 +285,17 @@ func stressShapes() []string {
 		"(and (and (not (= ?I 0)) ?B) (and (> (/ 10 ?I) 1) ?B))",
 		"(and ?B (and ?B (and (> (q ?I) ?I) ?B)))",
 		"(or (and ?B ?B) (or ?B (or (p ?B) ?B)))",
+		// operand-less operator calls ((z) int, (y) bool) as first node of if-branches and in jump positions
+		"(if ?B ?I (if (y) ?I ?I))",
+		"(+ ?I (if ?B ?I (if (y) ?I ?I)))",
+		"(+ ?I (if ?B ?I (if (> (z) ?I) (z) ?I)) ?I)",
+		"(if ?B ?B (and (y) ?B))",
+		"(if ?B ?I (+ (z) ?I))",
+		"(and ?B (if ?B ?B (or (y) ?B)))",
+		"(if ?B (y) (y))",
+		"(or (y) ?B (y))",
+		"(if (y) (z) (z))",
+		"(and (if ?B (y) ?B) (y))",
 		// operators and operand kinds the representatives above do not cover: 5+ operands, between, xor,
 		// n-ary eq, membership in literal lists, string operands, if as condition of if
 		"(+ ?I ?I ?I ?I ?I ?I)",
